@@ -156,11 +156,16 @@ func (ex *Exec) selectValues(vs []Value, idx *T) Value {
 	if k, ok := constOf(idx); ok {
 		return vs[k]
 	}
-	v := vs[len(vs)-1]
-	for i := len(vs) - 2; i >= 0; i-- {
-		v = ex.iteValue(ex.C.Eq(idx, ex.k64(int64(i))), vs[i], v)
+	if v, ok := ex.tryIte(func() Value {
+		v := vs[len(vs)-1]
+		for i := len(vs) - 2; i >= 0; i-- {
+			v = ex.iteValue(ex.C.Eq(idx, ex.k64(int64(i))), vs[i], v)
+		}
+		return v
+	}); ok {
+		return v
 	}
-	return v
+	return vs[ex.concretize(idx, "select index", 4096)]
 }
 
 func (fr *frame) indexAddr(ins *ssa.IndexAddr) Value {
